@@ -68,7 +68,7 @@ def _absorb(agg, res, meta):
                         'digest': res['digest']})
             lst.sort(key=lambda x: len(x['choices']))
             del lst[3:]
-    if len(agg['samples']) < 2 and res['plan']:
+    if len(agg['samples']) < 2 and res['plan'] and res['nontrivial']:
         agg['samples'].append({'meta': meta, 'plan': res['plan'], 'schedule': res['sched_key'][:200],
                                'verdicts': res['verdicts']})
 
